@@ -26,7 +26,7 @@ var wkinds = []wkind{
 	{Name: "loop2", Loop: true},               // 5  k = 0; for { k = k + 1; if k > 2 { break }; . }
 	{Name: "while1", Loop: true, Deep: true},  // 6  k = 0; for k < 1 { k = k + 1; . }
 	{Name: "while2", Loop: true},              // 7  k = 0; for k < 2 { k = k + 1; . }
-	{Name: "cfor1", Loop: true},               // 8  for i = 0; i < 1; i++ { . }
+	{Name: "cfor1", Loop: true, Deep: true},   // 8  for i = 0; i < 1; i++ { . }
 	{Name: "cfor2", Loop: true},               // 9  for i = 0; i < 2; i++ { . }
 	{Name: "forin1", Loop: true, Deep: true},  // 10 for x in [v] { . }
 	{Name: "forin2", Loop: true},              // 11 for x in [v, w] { . }
@@ -35,10 +35,10 @@ var wkinds = []wkind{
 	{Name: "default", Switch: true},           // 14 switch 1 { case 2: default: . }
 	{Name: "try", TryB: true},                 // 15 try { . } catch { READ }
 	{Name: "tryfin", TryB: true},              // 16 try { . } catch { READ } finally { READ }
-	{Name: "catch"},                           // 17 try { throw } catch e { . }
+	{Name: "catch", Deep: true},               // 17 try { throw } catch e { . }
 	{Name: "catchA"},                          // 18 try { throw } catch a { . }                      (pool name as catch variable)
 	{Name: "catchL"},                          // 19 try { var a = v; throw } catch { . }             (try-body local)
-	{Name: "finally"},                         // 20 try { } catch { } finally { . }
+	{Name: "finally", Deep: true},             // 20 try { } catch { } finally { . }
 	{Name: "finallyT"},                        // 21 try { var b = v; throw } catch { } finally { . }
 	{Name: "module"},                          // 22 module M { . }; READ M.a M.b
 	{Name: "func", Func: true},                // 23 func f() { . }; f()
@@ -57,6 +57,12 @@ var wkinds = []wkind{
 	{Name: "formapK", Loop: true},  // 34 for a in {"kx": v} { . }
 	{Name: "formapV", Loop: true},  // 35 for x, a in {"kx": v} { . }
 	{Name: "formapKV", Loop: true}, // 36 for a, b in {"kx": v} { . }
+	// a NAMED function whose body refers to its own name
+	{Name: "funcSelf", Func: true}, // 37 func a() { . }; a()          (the payload assigns to / shadows / reads the function's own name)
+	{Name: "recSelf", Func: true},  // 38 func f(n) { if n > 0 { f(n - 1) }; READ }; g = f; f = func(n) { . }; g(1)   (the call inside the old body must reach the re-bound f)
+	// C-for whose init clause binds a pool name
+	{Name: "cforVarA", Loop: true}, // 39 i = 0; for var a = v; i < 2; i++ { . }
+	{Name: "cforSetA", Loop: true}, // 40 i = 0; for a = v; i < 1; i++ { . }
 }
 
 // ---------- spine descriptor ----------
@@ -119,6 +125,8 @@ func (d desc) relevant() [nDims]bool {
 			rel[7] = true
 		case w == 33:
 			rel[1], rel[8] = true, true
+		case w == 39 || w == 40:
+			rel[1] = true
 		}
 		if wkinds[w].TryB && d.Exit >= 1 && d.Exit <= 3 {
 			rel[4] = true
@@ -245,6 +253,24 @@ func (b *builder) construct(kind, k int, slot []*stmt) []*stmt {
 		return []*stmt{{Op: opForIn, Name: "x" + sfx, Name2: "a", MapKey: "kx", Vals: []int64{K + 1}, Body: slot}}
 	case 36:
 		return []*stmt{{Op: opForIn, Name: "a", Name2: "b", MapKey: "kx", Vals: []int64{K + 1}, Body: slot}}
+	case 37:
+		return []*stmt{{Op: opFunc, Name: "a", Body: slot}, {Op: opCall, Name: "a"}}
+	case 38:
+		f, g, n := "f"+sfx, "h"+sfx, "n"+sfx
+		old := []*stmt{
+			{Op: opIf, Arms: []arm{{&cond{K: '>', N: n, C: 0}, []*stmt{{Op: opCall, Name: f, Args: []*expr{{K: '+', N: n, C: -1}}}}}}},
+			read("L" + sfx),
+		}
+		return []*stmt{
+			{Op: opFunc, Name: f, Params: []string{n}, Body: old},
+			assign(g, &expr{K: 'n', N: f}),
+			assign(f, &expr{K: 'f', Fn: &fnlit{Params: []string{n}, Body: slot}}),
+			{Op: opCall, Name: g, Args: []*expr{cst(1)}},
+		}
+	case 39:
+		return []*stmt{assign("i"+sfx, cst(0)), {Op: opCFor, Name: "i" + sfx, N: 2, Init: &stmt{Op: opVar, Name: "a", E: cst(K + 1)}, Body: slot}}
+	case 40:
+		return []*stmt{assign("i"+sfx, cst(0)), {Op: opCFor, Name: "i" + sfx, N: 1, Init: assign("a", cst(K+1)), Body: slot}}
 	}
 	panic("bad construct kind")
 }
